@@ -28,7 +28,12 @@ def canonical(buf):
     return Buf(cells=cells)
 
 
-def check(prog, run):
+def thorough(prog, run):
+    """deeper shapes: more descriptors, every designator kind in one page, every iSCSI name length 5..44"""
+    check(prog, run, cases=refrt.MORE_CASES, floors=False)
+
+
+def check(prog, run, cases=None, floors=True):
     I = prog.I
     run.explanation = ("for every structure with both directions and every enumerated shape (descriptor counts, designator / page / "
                        "TransportID kinds) the library's marshaller is abstractly interpreted on a value dictionary whose leaves are "
@@ -40,7 +45,7 @@ def check(prog, run):
     run.trusted += ["spec/roundtrip.py (value dictionaries as documented / returned by the parsers), spec/tables.py (leaf widths)"]
     run.assumptions += ["shapes outside the enumerated ones (more descriptors, block descriptors in mode data) are not decided"]
     ncase = 0
-    for case in refrt.CASES:
+    for case in (cases if cases is not None else refrt.CASES):
         ncase += 1
         modname, clsname = case["cls"].split(":")
         cls = prog.cls(modname, clsname)
@@ -150,7 +155,8 @@ def check(prog, run):
             else:
                 run.ok("build-after-parse", c, {"bytes": len(img)})
     run.count("cases", ncase)
-    run.floor("round-trip cases", ncase, 60)
+    if floors:
+        run.floor("round-trip cases", ncase, 60)
 
 
 def first_subset_difference(a, b, path):
